@@ -1131,7 +1131,18 @@ class StateEngine(object):
                 #print("Terminating branch {}".format(index))
 
                 results = branch_results["results"]
-                results[index] = "__TERMINATED__"
+                if state_type == "Map" and "Index" not in branch_info:
+                    """
+                    The event re-enters a Map state for its next MaxConcurrency
+                    batch. As it is dropped here the iterations of that batch
+                    are never launched, so no results are pending for them.
+                    """
+                    batch = iterator_range.split(":")
+                    for i in range(int(batch[0]), min(int(batch[1]), len(results))):
+                        if results[i] == None:
+                            results[i] = "__TERMINATED__"
+                else:
+                    results[index] = "__TERMINATED__"
 
                 if parent_terminated:
                     #print("Terminating parent branch {}".format(parent_index))
